@@ -283,6 +283,96 @@ def label(year, status_name, first, last):
     return f'({lo},{hi}]'
 
 
+_ROUTE = dict(command_lines=0, line16=0)
+
+
+def cli_route():
+    """habutax.main() on two single wage-earner returns (table and worksheet range) of every year with the year option in every position and spelling; line 16 of
+    the written solution against the schedule of the year the command line names"""
+    import os, configparser
+    from hv import e3, cli
+    from habutax.forms import available_forms
+    out = []
+    default_year = max(available_forms)
+    for year in YEARS:
+        for wages in ('60000', '236150'):
+            base = e3.Base(f'C07-route-{wages}', ['1040'], dict(e3.W2, **{'w-2:0.box_1': wages, 'w-2:0.box_5': wages}))
+            r, asked = e3.run_return(year, base, {})
+            if r.exc is not None or not r.verdict:
+                out.append((f'C07|{year}|cli-route|base', f'{year}: wage-earner return with {wages} does not solve in memory: {r.exc}', dict(kind='cli-route', year=year)))
+                continue
+            with cli.workdir() as d:
+                inp, sol = os.path.join(d, 'in.ini'), os.path.join(d, 'sol.ini')
+                cli.write_inputs(inp, r.final_inputs)
+                for lab, argv in cli.argv_arrangements(year, ['1040'], inp, sol, default_year):
+                    if os.path.exists(sol):
+                        os.remove(sol)
+                    res = cli.main_cli(argv)
+                    _ROUTE['command_lines'] += 1
+                    if res['exc'] == ('SystemExit', '2') and 'usage:' in res['stderr']:
+                        continue
+                    if res['exc'] is not None or not os.path.exists(sol):
+                        out.append((f'C07|{year}|cli-route|{lab}|raised', f'{year} habutax {" ".join(argv[:5])} ...: {res["exc"]}', dict(kind='cli-route', year=year, wages=wages, label=lab)))
+                        continue
+                    cp = configparser.ConfigParser(interpolation=None)
+                    with open(sol) as fh:
+                        cp.read_file(fh)
+                    ti, tax = float(cp['1040']['15']), float(cp['1040']['16'])
+                    exp = expected(year, cp['1040']['filing_status'], ti)
+                    _ROUTE['line16'] += 1
+                    if not agrees(ti, tax, exp):
+                        out.append((f'C07|{year}|cli-route|{lab}|line16',
+                                    f'habutax {" ".join(a for a in argv if not a.startswith("/"))} for {year}: line 15 = {ti}, line 16 = {tax}, the {year} schedule gives {float(exp)}',
+                                    dict(kind='cli-route', year=year, wages=wages, label=lab)))
+    return out
+
+
+def optimised_points():
+    pts = []
+    for year in YEARS:
+        xs = set(range(0, 100000, 487)) | {0, 4, 5, 14, 15, 24, 25, 2999, 3000, 99949, 99950, 99999}
+        for b in all_boundaries(year) + [100000]:
+            xs.update([b - 0.01, b, b + 0.01])
+        xs.update(grid()[::25])
+        xs.add(MAXIMUM)
+        for st in statuses(year):
+            for x in sorted(v for v in xs if 0 <= v <= MAXIMUM):
+                pts.append((year, st.name, x))
+    return pts
+
+
+def optimised_eval():
+    """runs in the child interpreter: prints one JSON list of failures"""
+    import json, sys
+    bad = []
+    pts = optimised_points()
+    for year, name, x in pts:
+        got, err = call(year, status_enum(year)[name], x)
+        if err is not None:
+            bad.append((year, name, x, f'figure_tax({x}, {name}) for {year} is undefined: {err}'))
+            continue
+        exp = expected(year, name, x)
+        if not agrees(x, got, exp):
+            bad.append((year, name, x, f'figure_tax({x}, {name}) for {year} = {got}, statutory schedule gives {float(exp)}'))
+    json.dump(dict(optimised=not __debug__, n=len(pts), bad=bad), sys.stdout)
+
+
+def optimised_route():
+    """the same comparison in a child interpreter started with -O"""
+    import json, subprocess, sys, os
+    env = dict(os.environ)
+    env['PYTHONPATH'] = os.pathsep.join(p for p in sys.path if p)
+    p = subprocess.run([sys.executable, '-O', '-B', '-W', 'ignore', '-c', 'from hv.props import c07; c07.optimised_eval()'],
+                       capture_output=True, text=True, env=env, cwd=os.path.dirname(os.path.dirname(os.path.dirname(os.path.abspath(__file__)))))
+    try:
+        d = json.loads(p.stdout[p.stdout.index('{'):])
+    except Exception:
+        return [(0, '-', 0, f'child interpreter failed: rc={p.returncode} {p.stderr[-300:]}')], 0
+    if not d['optimised']:
+        return [(0, '-', 0, 'child interpreter did not run optimised')], 0
+    return [tuple(b) for b in d['bad']], d['n']
+
+
 def run(tier):
     run = runner.Run(PID, tier, 'exploration',
                      'E5: figure_tax(x, status) of each year enumerated over every whole dollar 0..99999 x 5 statuses x 3 years '
@@ -381,6 +471,19 @@ def run(tier):
             case['prev'] = r['prev']
         what = (f'{r["detail"]}; {r["n"]} contiguous enumerated amount(s) from {r["first"]} to {r["last"]} fail the same way')
         run.violation(key, case, what)
+    # --- routes by which the schedule reaches a filer: the console entry point with --year in every position, and an
+    # interpreter started with -O (assert statements compiled out)
+    for k, what, case in cli_route():
+        run.violation(k, case, what)
+    run.count('cli_route.command_lines', _ROUTE['command_lines'])
+    run.count('cli_route.line16_checked', _ROUTE['line16'])
+    run.evaluations += _ROUTE['command_lines']
+    bad, n = optimised_route()
+    run.count('optimised_interpreter.calls', n)
+    run.evaluations += n
+    for year, name, x, msg in bad[:40]:
+        run.violation(f'C07|{year}|{name}|python-O|{label(year, name, x, x)}', dict(year=year, status=name, amount=x, kind='python-O', optimised=True),
+                      f'under python -O: {msg}')
     run.extra['covered'] = dict(
         tier=tier,
         whole_dollars='every whole dollar 0..99999 for all 5 statuses of 2021, 2022, 2023 (both tiers)',
@@ -395,6 +498,12 @@ def run(tier):
 
 
 def replay(case):
+    if case.get('kind') == 'cli-route':
+        out = [o for o in cli_route() if o[2].get('year') == case['year']]
+        return (not out), (out[0][1] if out else 'every command line solves the year it names')
+    if case.get('kind') == 'python-O':
+        bad, n = optimised_route()
+        return (not bad), (bad[0][3] if bad else f'{n} calls agree under python -O')
     year, name, x = case['year'], case['status'], case['amount']
     st = status_enum(year)[name]
     got, err = call(year, st, x)
